@@ -223,6 +223,12 @@ class MainTransformer(object):
                 "with '%s'" % (target.symbol,
                              target.shadows,
                              rename_to))
+        elif target is node or node.shadowed_by:
+            # Only one of shadows/shadowed-by is emitted for a function, so a
+            # function that is itself shadowed can not shadow another one
+            message.warn_node(node,
+                "Function '%s' is shadowed by '%s', can't shadow '%s'" % (
+                    node.symbol, node.shadowed_by or node.name, rename_to))
         else:
             target.shadowed_by = node.name
             node.shadows = target.name
